@@ -240,6 +240,23 @@ func SelfTestHashes() error {
 		if a != MD4(m) || b != RIPEMD160(m) {
 			return fmt.Errorf("streaming reference differs from one-shot reference at length %d", n)
 		}
+		for _, cut := range []int{0, 1, n / 2, n} {
+			if cut > n {
+				continue
+			}
+			s4, s5 := NewMD4Stream(), NewRIPEMD160Stream()
+			s4.Write(m[:cut])
+			s5.Write(m[:cut])
+			p4, p5 := MD4(m[:cut]), RIPEMD160(m[:cut])
+			if !bytes.Equal(s4.Sum(), p4[:]) || !bytes.Equal(s5.Sum(), p5[:]) {
+				return fmt.Errorf("incremental reference: Sum after %d bytes differs from the one-shot reference", cut)
+			}
+			s4.Write(m[cut:])
+			s5.Write(m[cut:])
+			if !bytes.Equal(s4.Sum(), a[:]) || !bytes.Equal(s5.Sum(), b[:]) {
+				return fmt.Errorf("incremental reference differs from one-shot reference at length %d (cut %d)", n, cut)
+			}
+		}
 	}
 	return nil
 }
